@@ -1,1 +1,229 @@
-//! Controlled scheduler / crash-point snapshotter over the rip_verif hook (filled in with C01).
+//! Controlled scheduler and crash-point helper over the `rip_verif` hook (`rip_kernel::verif`).
+//!
+//! Actor threads (spawned through `Sched::spawn`) park at every instrumented point; `Sched::run`
+//! grants one actor at a time following a pick function (a schedule, a PRNG, or DFS enumeration).
+//! Threads that are not actors (tokio workers, plumbing) pass straight through every point.
+//!
+//! Enabledness: the caller supplies `enabled(actor, point) -> bool`; an actor parked at a point
+//! named `*.before_lock` is normally granted only when the corresponding `try_lock` probe says the
+//! mutex is free, so a narrowed critical section shows up as a real interleaving instead of a
+//! blocked harness.  An actor that was granted but neither parks again nor finishes within
+//! `step_timeout` (it ran into a lock the harness does not know about) is marked `in flight`
+//! and the scheduler goes on with the others; the trace records it.
+use std::cell::Cell;
+use std::collections::BTreeMap;
+use std::path::Path;
+use std::sync::{Arc, Condvar, Mutex};
+use std::time::{Duration, Instant};
+
+thread_local! {
+    static ACTOR: Cell<Option<usize>> = const { Cell::new(None) };
+}
+
+#[derive(Clone, Copy, PartialEq, Eq, Debug)]
+enum St {
+    /// parked at a point, waiting for a grant
+    Parked(&'static str),
+    /// granted, running towards its next point
+    Running,
+    Done,
+}
+
+#[derive(Default)]
+struct Inner {
+    actors: BTreeMap<usize, St>,
+    grants: BTreeMap<usize, u64>, // grant counter per actor
+    seen: BTreeMap<usize, u64>,   // grants consumed per actor
+    panicked: Vec<usize>,
+}
+
+pub struct Sched {
+    mu: Mutex<Inner>,
+    cv: Condvar,
+    pub step_timeout: Duration,
+}
+
+#[derive(Debug, Clone, Default)]
+pub struct Trace {
+    /// (actor, point it was parked at when granted)
+    pub steps: Vec<(usize, &'static str)>,
+    pub in_flight_timeouts: u64,
+    pub deadlock: bool,
+    pub panicked: Vec<usize>,
+}
+
+pub fn current_actor() -> Option<usize> {
+    ACTOR.with(|a| a.get())
+}
+
+impl Sched {
+    pub fn new() -> Arc<Sched> {
+        Arc::new(Sched { mu: Mutex::new(Inner::default()), cv: Condvar::new(), step_timeout: Duration::from_millis(400) })
+    }
+
+    /// Installs the global hook: actor threads park at every point.
+    pub fn install(self: &Arc<Self>) {
+        let me = self.clone();
+        rip_kernel::verif::set_hook(Some(Arc::new(move |name: &'static str| me.at_point(name))));
+    }
+    pub fn uninstall() {
+        rip_kernel::verif::set_hook(None);
+    }
+
+    fn at_point(&self, name: &'static str) {
+        let Some(id) = current_actor() else { return };
+        let mut g = self.mu.lock().unwrap();
+        g.actors.insert(id, St::Parked(name));
+        self.cv.notify_all();
+        loop {
+            let granted = *g.grants.get(&id).unwrap_or(&0);
+            let seen = *g.seen.get(&id).unwrap_or(&0);
+            if granted > seen {
+                g.seen.insert(id, seen + 1);
+                g.actors.insert(id, St::Running);
+                return;
+            }
+            g = self.cv.wait(g).unwrap();
+        }
+    }
+
+    /// Spawns an actor thread; it parks at the pseudo point "start" before running `f`.
+    pub fn spawn<F: FnOnce() + Send + 'static>(self: &Arc<Self>, actor: usize, f: F) -> std::thread::JoinHandle<()> {
+        {
+            let mut g = self.mu.lock().unwrap();
+            g.actors.insert(actor, St::Running);
+        }
+        let me = self.clone();
+        std::thread::spawn(move || {
+            ACTOR.with(|a| a.set(Some(actor)));
+            me.at_point("start");
+            let r = std::panic::catch_unwind(std::panic::AssertUnwindSafe(f));
+            let mut g = me.mu.lock().unwrap();
+            if r.is_err() {
+                g.panicked.push(actor);
+            }
+            g.actors.insert(actor, St::Done);
+            me.cv.notify_all();
+        })
+    }
+
+    /// Drives all actors to completion.  `pick(parked_enabled)` chooses the next actor among the
+    /// enabled parked ones (return None to stop early).  Returns the trace of grants.
+    pub fn run(&self, mut pick: impl FnMut(&[(usize, &'static str)]) -> Option<usize>, enabled: &dyn Fn(usize, &'static str) -> bool) -> Trace {
+        let mut trace = Trace::default();
+        let mut in_flight: Vec<usize> = vec![];
+        loop {
+            // wait until no actor is Running except the ones declared in flight
+            let mut g = self.mu.lock().unwrap();
+            let deadline = Instant::now() + self.step_timeout;
+            loop {
+                in_flight.retain(|a| g.actors.get(a) == Some(&St::Running));
+                let running: Vec<usize> = g.actors.iter().filter(|(a, s)| **s == St::Running && !in_flight.contains(a)).map(|(a, _)| *a).collect();
+                if running.is_empty() {
+                    break;
+                }
+                let now = Instant::now();
+                if now >= deadline {
+                    for a in running {
+                        in_flight.push(a);
+                        trace.in_flight_timeouts += 1;
+                    }
+                    break;
+                }
+                let (gg, _) = self.cv.wait_timeout(g, deadline - now).unwrap();
+                g = gg;
+            }
+            let parked: Vec<(usize, &'static str)> = g.actors.iter().filter_map(|(a, s)| if let St::Parked(p) = s { Some((*a, *p)) } else { None }).collect();
+            let all_done = g.actors.values().all(|s| *s == St::Done);
+            drop(g);
+            if all_done {
+                break;
+            }
+            let en: Vec<(usize, &'static str)> = parked.iter().cloned().filter(|(a, p)| enabled(*a, p)).collect();
+            if en.is_empty() {
+                if in_flight.is_empty() {
+                    if parked.is_empty() {
+                        // nothing parked, nothing running: everything done (race with Done marking)
+                        continue;
+                    }
+                    trace.deadlock = true;
+                    // release everybody so threads can finish
+                    self.release_all();
+                    break;
+                }
+                // wait for an in-flight actor to make progress
+                let g = self.mu.lock().unwrap();
+                let _ = self.cv.wait_timeout(g, Duration::from_millis(50)).unwrap();
+                if trace.in_flight_timeouts > 2000 {
+                    trace.deadlock = true;
+                    self.release_all();
+                    break;
+                }
+                trace.in_flight_timeouts += 1;
+                continue;
+            }
+            let Some(choice) = pick(&en) else {
+                self.release_all();
+                break;
+            };
+            let point = en.iter().find(|(a, _)| *a == choice).map(|(_, p)| *p).unwrap_or("?");
+            trace.steps.push((choice, point));
+            let mut g = self.mu.lock().unwrap();
+            *g.grants.entry(choice).or_insert(0) += 1;
+            g.actors.insert(choice, St::Running);
+            self.cv.notify_all();
+        }
+        trace.panicked = self.mu.lock().unwrap().panicked.clone();
+        trace
+    }
+
+    /// Lets every actor run freely from now on (used to drain after an early stop).
+    pub fn release_all(&self) {
+        let mut g = self.mu.lock().unwrap();
+        let ids: Vec<usize> = g.actors.keys().cloned().collect();
+        for a in ids {
+            *g.grants.entry(a).or_insert(0) += 1_000_000;
+        }
+        self.cv.notify_all();
+    }
+}
+
+/// Byte copy of a directory tree (no hard links): the on-disk state at a crash point.
+pub fn copy_dir(src: &Path, dst: &Path) -> std::io::Result<()> {
+    std::fs::create_dir_all(dst)?;
+    for e in std::fs::read_dir(src)? {
+        let e = e?;
+        let ft = e.file_type()?;
+        let to = dst.join(e.file_name());
+        if ft.is_dir() {
+            copy_dir(&e.path(), &to)?;
+        } else if ft.is_file() {
+            std::fs::copy(e.path(), &to)?;
+        }
+    }
+    Ok(())
+}
+
+/// Crash-point recorder: while installed, every point reached on a thread that called
+/// `CrashRec::arm()` invokes `f(point_name, ordinal)`.  The callback typically copies the data dir.
+pub struct CrashRec;
+thread_local! {
+    static ARMED: Cell<bool> = const { Cell::new(false) };
+}
+impl CrashRec {
+    pub fn install(f: impl Fn(&'static str, u64) + Send + Sync + 'static) {
+        let n = std::sync::atomic::AtomicU64::new(0);
+        rip_kernel::verif::set_hook(Some(Arc::new(move |name: &'static str| {
+            if ARMED.with(|a| a.get()) {
+                let k = n.fetch_add(1, std::sync::atomic::Ordering::SeqCst);
+                f(name, k);
+            }
+        })));
+    }
+    pub fn arm(on: bool) {
+        ARMED.with(|a| a.set(on));
+    }
+    pub fn uninstall() {
+        rip_kernel::verif::set_hook(None);
+    }
+}
